@@ -6,4 +6,10 @@ export RUSTUP_TOOLCHAIN=1.88.0 CARGO_NET_OFFLINE=true
 export RUSTFLAGS="--cfg ruma_verif --check-cfg cfg(ruma_verif)"
 mkdir -p work evidence replays
 (cd harness && cargo build --offline --release --workspace 2>&1 | tail -3)
-(cd lean && lake build RumaModel rumadriver 2>&1 | tail -3)
+targets=""
+for f in props/C*.json; do
+  id=$(basename "$f" .json)
+  lc=$(echo "$id" | tr 'A-Z' 'a-z')
+  targets="$targets RumaModel.Props.$id drv-$lc"
+done
+(cd lean && lake build $targets 2>&1 | tail -3)
